@@ -39,6 +39,11 @@ def cases(tier, seed):
             continue
         for r in range(reps * 2):
             out.append(dict(kind="other", cfg=cfg, family="gen", B=16, s=rnd.randrange(10**6)))
+    # every fourth case decodes the same instance object twice without cloning it (evaluate a batch, evaluate it again):
+    # the monitors watch the second episode
+    for i, c_ in enumerate(out):
+        if i % 4 == 3:
+            c_["reuse"] = True
     return out
 
 
